@@ -43,273 +43,6 @@ CO = "dclab/features/contour.py"
 CORE = "dclab/rtdc_dataset/core.py"
 
 
-def r171(ctx, repo):
-    call = canon(repo, CA, repo.func(CA, "Cache.__call__"),
-                 keep=("_update_hash",), unroll=False)
-    va = call.args.vararg.arg if call.args.vararg else None
-    kw = call.args.kwarg.arg if call.args.kwarg else None
-    if not va or not kw:
-        raise AnalysisError("Cache.__call__ lost *args/**kwargs")
-    upd = find_calls(call, attr="_update_hash")
-    hexd = find_calls(call, attr="hexdigest")
-    if not hexd:
-        raise AnalysisError("Cache.__call__: hexdigest lost")
-    # document order (robust against inlined helpers, whose statements all
-    # carry the line of the call)
-    order = {id(n): i for i, n in enumerate(walk(call))}
-    first_hex = min(order[id(h)] for h in hexd)
-    upd = [u for u in upd if order[id(u)] < first_hex]
-
-    def in_loop_over(u, pred):
-        n = u
-        while n is not None and not isinstance(n, ast.FunctionDef):
-            if isinstance(n, ast.For) and pred(n):
-                return n
-            n = getattr(n, "parent", None)
-        return None
-    # positional
-    ok = any(in_loop_over(u, lambda lp: txt(lp.iter) == va)
-             and txt(u.args[0]) == txt(in_loop_over(
-                 u, lambda lp: txt(lp.iter) == va).target) for u in upd)
-    ctx.ob("R17.1", ok, "every positional argument is hashed" if ok else
-           "positional arguments do not all reach the hasher", node=call,
-           label="key covers args")
-    # keyword names and values
-    knames = {n.targets[0].id for n in walk(call) if isinstance(n, ast.Assign)
-              and isinstance(n.targets[0], ast.Name) and kw in names_in(
-                  n.value) and "keys" in txt(n.value)} | {kw}
-    kloops = [lp for lp in walk(call) if isinstance(lp, ast.For)
-              and (txt(lp.iter) in knames or txt(lp.iter) in (
-                  f"sorted({kw})", f"sorted({kw}.keys())", f"{kw}.items()",
-                  f"sorted({kw}.items())"))]
-    name_ok = val_ok = False
-    for lp in kloops:
-        tnames = names_in(lp.target)
-        for u in upd:
-            if in_loop_over(u, lambda x: x is lp):
-                a = u.args[0]
-                if isinstance(a, ast.Name) and a.id in tnames and (
-                        isinstance(lp.target, ast.Name)
-                        or a.id == getattr(lp.target.elts[0], "id", None)):
-                    name_ok = True
-                if isinstance(a, ast.Subscript) and txt(a.value) == kw:
-                    val_ok = True
-                if isinstance(lp.target, ast.Tuple) and isinstance(
-                        a, ast.Name) and a.id == getattr(
-                        lp.target.elts[1], "id", None):
-                    val_ok = True
-    ctx.ob("R17.1", name_ok, "every keyword name is hashed" if name_ok else
-           "keyword names are not hashed (f(a=1) and f(b=1) share a key)",
-           node=call, label="key covers kw names")
-    ctx.ob("R17.1", val_ok, "every keyword value is hashed" if val_ok else
-           "keyword values are not hashed", node=call,
-           label="key covers kw values")
-    # deterministic keyword order
-    srt = any("sort" in txt(n) for n in walk(call) if isinstance(
-        n, (ast.Expr, ast.Assign, ast.For)) and kw in txt(n) or (
-        isinstance(n, ast.Expr) and ".sort()" in txt(n)))
-    ctx.ob("R17.1", srt, "keywords are hashed in sorted order" if srt else
-           "keyword order influences the key", node=call,
-           label="kw order canonical", nontrivial=False)
-    # identity
-    ident = [txt(u.args[0]) for u in upd if "self.func." in txt(u.args[0])]
-    for need in ("__name__", "__code__.co_filename"):
-        ok = any(need in i for i in ident)
-        ctx.ob("R17.1", ok, f"function identity field {need} is hashed"
-               if ok else f"function identity field {need} is not hashed: "
-               f"two memoised functions can share entries", node=call,
-               label=f"key covers {need}")
-    ctx.ob("R17.1", len(ident) >= 3, "three identity fields are hashed"
-           if len(ident) >= 3 else f"only {len(ident)} identity fields "
-           f"hashed", node=call, label="identity fields", nontrivial=False)
-    # same ref for lookup and store
-    refs = [n.targets[0].id for n in walk(call) if isinstance(n, ast.Assign)
-            and isinstance(n.value, ast.Call) and last_attr(
-                n.value) == "hexdigest"]
-    if len(refs) != 1:
-        raise AnalysisError("Cache.__call__: key variable lost")
-    ref = refs[0]
-    look = [n for n in walk(call) if isinstance(n, ast.Compare)
-            and isinstance(n.ops[0], ast.In) and txt(n.left) == ref
-            and "_cache" in txt(n.comparators[0])]
-    get = [n for n in walk(call) if isinstance(n, ast.Return)
-           and isinstance(n.value, ast.Subscript) and "_cache" in txt(
-               n.value.value) and txt(n.value.slice) == ref]
-    put = [n for n in walk(call) if isinstance(n, ast.Assign)
-           and isinstance(n.targets[0], ast.Subscript) and "_cache" in txt(
-               n.targets[0].value) and txt(n.targets[0].slice) == ref]
-    ok = bool(look and get and put)
-    ctx.ob("R17.1", ok, "lookup, hit and store use the same key" if ok else
-           "lookup / hit / store do not use the same key", node=call,
-           label="same key")
-    # the stored object is the function result for these arguments
-    if put:
-        v = put[0].value
-        d = [n for n in walk(call) if isinstance(n, ast.Assign)
-             and isinstance(v, ast.Name) and txt(n.targets[0]) == v.id]
-        ok = bool(d) and isinstance(d[0].value, ast.Call) and txt(
-            d[0].value.func) == "self.func" and any(
-            isinstance(a, ast.Starred) and txt(a.value) == va
-            for a in d[0].value.args) and any(
-            k.arg is None and txt(k.value) == kw
-            for k in d[0].value.keywords)
-        ctx.ob("R17.1", ok, "a miss computes func(*args, **kwargs) and "
-               "stores exactly that" if ok else "a miss does not store "
-               "func(*args, **kwargs)", node=put[0], label="miss computes")
-
-
-def r172(ctx, repo):
-    uh = inline_helpers(repo, CA, repo.func(CA, "Cache._update_hash"))
-    arg = uh.args.args[1].arg
-    nd = [n for n in walk(uh) if isinstance(n, ast.If)
-          and "np.ndarray" in txt(n.test) and "isinstance" in txt(n.test)]
-    if not nd:
-        raise AnalysisError("Cache._update_hash: ndarray branch lost")
-    nd = nd[0]
-    body_txt = " ; ".join(txt(s) for s in nd.body)
-    fed = []
-    for c in find_calls(ast.Module(body=nd.body, type_ignores=[]),
-                        attr="update"):
-        fed.append(c)
-    # what reaches the hasher in this branch (incl. one level of locals)
-    reach = " ; ".join(txt(c.args[0]) for c in fed if c.args)
-    feeding = set()
-    for c in fed:
-        feeding |= names_in(c)
-    for _ in range(5):
-        for s in nd.body:
-            tgt = None
-            if isinstance(s, ast.Assign) and isinstance(
-                    s.targets[0], ast.Name):
-                tgt = s.targets[0].id
-            elif isinstance(s, ast.AugAssign) and isinstance(
-                    s.target, ast.Name):
-                tgt = s.target.id
-            if tgt in feeding and txt(s.value) not in reach:
-                reach += " ; " + txt(s.value)
-                feeding |= names_in(s.value)
-    # the data type must enter the key in a form that distinguishes every
-    # dtype (byte order included): dtype.str / descr / str() / repr()
-    dt_forms = []
-    for src_ in reach.split(" ; "):
-        try:
-            tree_ = ast.parse(src_, mode="eval")
-        except SyntaxError:
-            continue
-        for n_ in ast.walk(tree_):
-            if isinstance(n_, ast.Attribute) and n_.attr == "dtype" \
-                    and txt(n_.value) == arg:
-                dt_forms.append((n_, tree_))
-    from ..core import link as _link
-    lossy = None
-    for n_, tree_ in dt_forms:
-        _link(tree_)
-        par = getattr(n_, "parent", None)
-        if isinstance(par, ast.Attribute):
-            if par.attr in ("str", "descr"):
-                continue
-            if par.attr in ("name", "kind", "char", "itemsize", "type",
-                            "num", "alignment"):
-                lossy = par
-                continue
-            raise AnalysisError(f"Cache._update_hash: dtype attribute "
-                                f"`{par.attr}` not classified")
-        # formatted / str() / repr() of the dtype object
-        continue
-    for need, why in ((f"{arg}.dtype", "data type"),
-                      (f"{arg}.shape", "shape")):
-        ok = need in reach
-        if why == "data type" and ok and lossy is not None and not any(
-                isinstance(getattr(n_, "parent", None), ast.Attribute)
-                and n_.parent.attr in ("str", "descr") or not isinstance(
-                    getattr(n_, "parent", None), ast.Attribute)
-                for n_, _t in dt_forms):
-            ok = False
-        ctx.ob("R17.2", ok, f"the array {why} is part of the key" if ok else
-               f"the array {why} is not part of the key (or only in a form "
-               f"that does not distinguish all of them, e.g. dtype.name "
-               f"drops the byte order): arguments that "
-               f"differ only in {why} share an entry", node=nd,
-               label=f"array key covers {why}")
-    ok = ("view(" in reach or "tobytes(" in reach) and arg in reach
-    ctx.ob("R17.2", ok, "the array bytes are part of the key" if ok else
-           "the array bytes are not hashed", node=nd,
-           label="array key covers bytes")
-    contiguous = "ascontiguousarray" in reach or "tobytes(" in reach
-    ctx.ob("R17.2", contiguous, "non-contiguous views are hashed by content"
-           if contiguous else "non-contiguous views cannot be hashed "
-           "(view() raises)", node=nd, label="array layout independent")
-    # delimiting of other arguments
-    rest = nd.orelse
-    # the final else branch (scalars / strings) and the list branch
-    scalar = rest
-    lst_if = None
-    while len(scalar) == 1 and isinstance(scalar[0], ast.If):
-        if "list" in txt(scalar[0].test):
-            lst_if = scalar[0]
-        scalar = scalar[0].orelse
-    sc_txt = " ; ".join(txt(s) for s in scalar)
-    ls_txt = " ; ".join(txt(s) for s in lst_if.body) if lst_if else ""
-    ok = "len(" in sc_txt and "len(" in ls_txt
-    ctx.ob("R17.2", ok, "lists and scalars are length-delimited" if ok else
-           "consecutive non-array arguments are hashed without delimiter "
-           "('ab','c' vs 'a','bc')", node=nd, label="arguments delimited")
-    # list branch recurses over all items
-    lst = [n for n in ast.walk(ast.Module(body=rest, type_ignores=[]))
-           if isinstance(n, ast.If) and "list" in txt(n.test)]
-    ok = bool(lst) and "_update_hash" in " ".join(
-        txt(s) for s in lst[0].body)
-    ctx.ob("R17.2", ok, "list arguments are hashed element-wise" if ok else
-           "list arguments are not hashed element-wise", node=uh,
-           label="list recursion", nontrivial=False)
-
-
-def r173(ctx, repo):
-    call = inline_helpers(repo, CA, repo.func(CA, "Cache.__call__"),
-                          keep=("_update_hash",))
-    ins_c = [n for n in walk(call) if isinstance(n, ast.Assign)
-             and isinstance(n.targets[0], ast.Subscript)
-             and "_cache" in txt(n.targets[0].value)]
-    ins_k = [c for c in find_calls(call, attr="append")
-             if "_keys" in txt(c.func.value)]
-    ok = len(ins_c) == 1 and len(ins_k) == 1 and txt(
-        ins_k[0].args[0]) == txt(ins_c[0].targets[0].slice)
-    ctx.ob("R17.3", ok, "each insertion into the cache appends the same key "
-           "to the key list" if ok else "cache and key list are not filled "
-           "together", node=ins_c[0] if ins_c else call,
-           label="paired insertion")
-    pops_k = [c for c in find_calls(call, attr="pop")
-              if "_keys" in txt(c.func.value)]
-    pops_c = [c for c in find_calls(call, attr="pop")
-              if "_cache" in txt(c.func.value)]
-    ok = False
-    if len(pops_k) == 1 and len(pops_c) == 1:
-        st = pops_k[0]
-        while not isinstance(st, ast.stmt):
-            st = st.parent
-        ok = isinstance(st, ast.Assign) and txt(st.targets[0]) == txt(
-            pops_c[0].args[0]) and bool(pops_k[0].args) and txt(
-            pops_k[0].args[0]) == "0"
-    ctx.ob("R17.3", ok, "the oldest key is removed from both stores" if ok
-           else "eviction desynchronises key list and cache", node=call,
-           label="paired eviction")
-    bound = [n for n in walk(call) if isinstance(n, ast.If)
-             and "MAX_SIZE" in txt(n.test) and "_keys" in txt(n.test)]
-    ok = bool(bound) and isinstance(bound[0].test, ast.Compare) and \
-        isinstance(bound[0].test.ops[0], ast.Gt) and txt(
-        bound[0].test.comparators[0]) == "MAX_SIZE"
-    ctx.ob("R17.3", ok, "the bound compares the number of keys with "
-           "MAX_SIZE" if ok else "the size bound changed", node=bound[0]
-           if bound else call, label="bound MAX_SIZE")
-    cc = repo.func(CA, "Cache.clear_cache")
-    asg = {txt(n.targets[0]): txt(n.value) for n in walk(cc)
-           if isinstance(n, ast.Assign)}
-    ok = asg.get("Cache._keys") == "[]" and asg.get("Cache._cache") == "{}"
-    ctx.ob("R17.3", ok, "clear_cache resets both stores" if ok else
-           "clear_cache leaves one store behind", node=cc,
-           label="clear both")
-
-
 def memoised(repo):
     out = []
     for rel in (KDE, DS):
@@ -762,15 +495,221 @@ def r178(ctx, repo):
     ctx.stat("R17.8 memo hand-out sites", n)
 
 
+# ----------------------------------------------------------------------
+# finite-model evaluation of the global memo (R17.1 – R17.3)
+
+def r17_eval(ctx, repo):
+    """`Cache` (loaded from its syntax tree) evaluated on model functions,
+    model arrays and a concatenating model of md5: which calls share an
+    entry, what a hit returns, what a miss computes, how many entries are
+    kept and whether the two stores stay in step."""
+    from ..lib_C17 import Model, Fn, MArr
+    cnode = repo.cls(CA, "Cache")
+    fn = {f.name: f for f in cnode.body if isinstance(f, ast.FunctionDef)}
+    for need in ("__call__", "clear_cache"):
+        if need not in fn:
+            raise AnalysisError(f"Cache.{need} vanished")
+    call_node = fn["__call__"]
+    upd_node = fn.get("_update_hash", call_node)
+    fails = {}
+
+    def fail(key, msg):
+        fails.setdefault(key, msg)
+    raw = b"\x01\x00\x02\x00\x03\x00\x04\x00"
+    A1 = MArr(raw, "<u2", (4,))
+    arrays = {
+        "uint16 (4,)": A1,
+        "uint8 (8,) same bytes": MArr(raw, "<u1", (8,)),
+        "uint16 (2, 2) same bytes": MArr(raw, "<u2", (2, 2)),
+        "big-endian uint16 (4,) same bytes": MArr(raw, ">u2", (4,)),
+        "int16 (4,) same bytes": MArr(raw, "<i2", (4,)),
+        "uint16 (4,) other bytes": MArr(raw[:-2] + b"\x09\x00", "<u2", (4,)),
+    }
+    big = bytes(range(1, 200)) * 20
+    B1 = MArr(big, "<u1", (len(big),))
+    B2 = MArr(big[:2000] + b"\xff" + big[2001:], "<u1", (len(big),))
+    # argument lists that denote different computations
+    distinct = [
+        ("('ab', 'c')", ("ab", "c"), {}),
+        ("('a', 'bc')", ("a", "bc"), {}),
+        ("('abc',)", ("abc",), {}),
+        ("('a', 'b', 'c')", ("a", "b", "c"), {}),
+        ("(['a', 'b'], 'c')", (["a", "b"], "c"), {}),
+        ("(['a'], 'b', 'c')", (["a"], "b", "c"), {}),
+        ("(['a', 'b', 'c'],)", (["a", "b", "c"],), {}),
+        ("(1,)", (1,), {}),
+        ("('1',)", ("1",), {}),
+        ("(1.0,)", (1.0,), {}),
+        ("(True,)", (True,), {}),
+        ("(None,)", (None,), {}),
+        ("()", (), {}),
+        ("(a=1)", (), {"a": 1}),
+        ("(b=1)", (), {"b": 1}),
+        ("(a=1, b=2)", (), {"a": 1, "b": 2}),
+        ("(a=2, b=1)", (), {"a": 2, "b": 1}),
+        ("('a', 1)", ("a", 1), {}),
+        ("(a='1')", (), {"a": "1"}),
+        ("(large array)", (B1,), {}),
+        ("(large array, one byte in the middle changed)", (B2,), {}),
+        ("(a=large array)", (), {"a": B1}),
+        ("(a=large array, one byte changed)", (), {"a": B2}),
+    ] + [(f"({k})", (v,), {}) for k, v in arrays.items()] + [
+        (f"([{k}],)", ([v],), {}) for k, v in list(arrays.items())[:2]] + [
+        (f"(a={k})", (), {"a": v}) for k, v in list(arrays.items())[:2]]
+    m = Model(repo, max_size=1000)
+    f = Fn("kde_histogram", "doc of f", "dclab/kde_methods.py")
+    w = m.wrap(f)
+    results = []
+    for label, args, kw in distinct:
+        n0 = len(f.calls)
+        r = m.call(w, *args, **kw)
+        if r[0] != "ok":
+            fail("callable", f"Cache call with {label} -> {r!r}")
+            continue
+        results.append((label, r[1], args, kw))
+        if len(f.calls) == n0 + 1:
+            cargs, ckw = f.calls[-1]
+            if tuple(cargs) != tuple(args) or dict(ckw) != dict(kw):
+                fail("miss computes", f"f{label}: the wrapped function was "
+                     f"called with {cargs!r}, {ckw!r}")
+        elif len(f.calls) > n0 + 1:
+            fail("miss computes", f"f{label}: the wrapped function was "
+                 f"called {len(f.calls) - n0} times")
+    seen = {}
+    for label, val, args, kw in results:
+        if val in seen:
+            fail("key injective", f"f{label} returns the cached result of "
+                 f"f{seen[val]}: different arguments share an entry")
+        seen.setdefault(val, label)
+    # hits: an identical call returns the stored object, without computing
+    ncalls = len(f.calls)
+    for label, val, args, kw in results:
+        r = m.call(w, *args, **kw)
+        if r != ("ok", val):
+            fail("hit returns stored", f"second f{label} -> {r!r}, first "
+                 f"returned {val!r}")
+    if len(f.calls) != ncalls:
+        fail("hit returns stored", "an identical second call computes again "
+             f"({len(f.calls) - ncalls} recomputations)")
+    # equal meaning -> same entry
+    r1 = m.call(w, "x", a=1, b=2)
+    r2 = m.call(w, "x", b=2, a=1)
+    if r1 != r2:
+        fail("kw order canonical", "f('x', a=1, b=2) and f('x', b=2, a=1) "
+             "get different entries")
+    r1 = m.call(w, A1)
+    r2 = m.call(w, A1.copy())
+    if r1 != r2:
+        fail("equal arrays share", "an equal copy of an array argument is "
+             "computed again")
+    nc = MArr(raw, "<u2", (4,), contiguous=False)
+    r3 = m.call(w, nc)
+    if r3[0] != "ok":
+        fail("array layout independent", "a non-contiguous array argument "
+             f"-> {r3!r}")
+    # function identity
+    m = Model(repo, max_size=1000)
+    variants = [("kde_histogram", "doc", "dclab/kde_methods.py"),
+                ("kde_gauss", "doc", "dclab/kde_methods.py"),
+                ("kde_histogram", "doc", "dclab/other.py"),
+                ("kde_histogram", "another doc", "dclab/kde_methods.py")]
+    outs = {}
+    for v in variants:
+        fv = Fn(*v)
+        r = m.call(m.wrap(fv), "x", 1)
+        if r[0] != "ok":
+            fail("callable", f"Cache call of {v} -> {r!r}")
+            continue
+        if not fv.calls:
+            fail("function identity", f"{v[0]} ({v[2]}, doc {v[1]!r}) is "
+                 f"served the result of "
+                 f"{[k for k, x in outs.items() if x == r[1]]}: two "
+                 f"memoised functions share entries")
+        outs[v] = r[1]
+    # bound and consistency of the two stores
+    for ms in (1, 3):
+        m = Model(repo, max_size=ms)
+        f2 = Fn("g", "doc", "dclab/downsampling.py")
+        w2 = m.wrap(f2)
+        for i in range(ms + 4):
+            r = m.call(w2, i)
+            if r[0] != "ok":
+                fail("callable", f"MAX_SIZE={ms}: call #{i} -> {r!r}")
+                break
+            cache, keys = m.stores()
+            if len(cache) > ms:
+                fail("bound", f"MAX_SIZE={ms}: {len(cache)} entries after "
+                     f"{i + 1} distinct calls")
+            if set(keys) != set(cache) or len(keys) != len(set(keys)):
+                fail("stores in step", f"MAX_SIZE={ms}: after {i + 1} "
+                     f"distinct calls the key list has {len(keys)} entries "
+                     f"({len(set(keys))} distinct), the cache {len(cache)}: "
+                     f"the two stores drift apart")
+            # the newest entry is served
+            r2 = m.call(w2, i)
+            if r2 != r:
+                fail("newest entry kept", f"MAX_SIZE={ms}: the entry just "
+                     f"stored for call #{i} is not served")
+        n0 = len(f2.calls)
+        m.call(w2, 0)
+        if len(f2.calls) == n0:
+            fail("oldest entry evicted", f"MAX_SIZE={ms}: the first of "
+                 f"{ms + 4} entries is still served (eviction removes "
+                 f"another one)")
+        r = m.clear()
+        if r[0] != "ok":
+            fail("clear", f"clear_cache() -> {r!r}")
+        else:
+            cache, keys = m.stores()
+            if cache or keys:
+                fail("clear", "clear_cache leaves entries behind")
+            n0 = len(f2.calls)
+            m.call(w2, ms + 3)
+            if len(f2.calls) == n0:
+                fail("clear", "an entry survives clear_cache")
+    obs = [
+        ("R17.1", "callable", call_node, "every model call evaluates"),
+        ("R17.1", "key injective", upd_node, f"{len(distinct)} argument "
+         "lists that denote different computations get different entries "
+         "(types, delimiters, keyword names, dtype, byte order, shape, "
+         "content of large arrays)"),
+        ("R17.1", "kw order canonical", call_node, "keyword order does not "
+         "influence the entry"),
+        ("R17.1", "function identity", call_node, "memoised functions that "
+         "differ in name, file or doc never share entries"),
+        ("R17.1", "hit returns stored", call_node, "an identical call "
+         "returns the stored result without computing"),
+        ("R17.1", "miss computes", call_node, "a miss calls the function "
+         "with exactly the given arguments"),
+        ("R17.2", "equal arrays share", upd_node, "equal arrays share an "
+         "entry"),
+        ("R17.2", "array layout independent", upd_node, "non-contiguous "
+         "arrays can be hashed"),
+        ("R17.3", "bound", call_node, "never more than MAX_SIZE entries"),
+        ("R17.3", "stores in step", call_node, "key list and cache hold "
+         "the same keys after every call"),
+        ("R17.3", "newest entry kept", call_node, "the entry just stored is "
+         "served"),
+        ("R17.3", "oldest entry evicted", call_node, "eviction removes the "
+         "oldest entry"),
+        ("R17.3", "clear", fn["clear_cache"], "clear_cache empties both "
+         "stores"),
+    ]
+    for rule, key, node, good in obs:
+        ok = key not in fails
+        ctx.ob(rule, ok, good if ok else fails[key], node=node, label=key)
+    ctx.stat("R17 model calls: distinct argument lists", len(distinct))
+
+
 def run(ctx):
     repo = ctx.repo
     ctx.rule("R17.8", "lazily cached feature arrays handed out uncopied are "
              "read-only", minimum=2)
     r178(ctx, repo)
     ctx.rule("R17.1", "Cache key covers args, kw names+values, function "
-             "identity; one key for lookup/hit/store", minimum=8)
+             "identity; one key for lookup/hit/store", minimum=6)
     ctx.rule("R17.2", "array key covers dtype, shape, bytes; arguments "
-             "delimited", minimum=5)
+             "delimited", minimum=2)
     ctx.rule("R17.3", "eviction keeps key list and cache in step", minimum=4)
     ctx.rule("R17.4", "shared cached objects reach the dataset interface "
              "only through allocation", minimum=7)
@@ -779,9 +718,7 @@ def run(ctx):
     ctx.rule("R17.6", "LazyContourList deques bounded and filled together",
              minimum=4)
     ctx.rule("R17.7", "memoised functions read no module state", minimum=4)
-    r171(ctx, repo)
-    r172(ctx, repo)
-    r173(ctx, repo)
+    r17_eval(ctx, repo)
     r174(ctx, repo)
     r175(ctx, repo)
     r176(ctx, repo)
@@ -790,41 +727,41 @@ def run(ctx):
 
 MUTANTS = [
     ("dtype enters the key by name only (seeded C17_9)", CA,
-     ("{arg.dtype.str}", "{arg.dtype.name}"), "R17.2"),
+     ("{arg.dtype.str}", "{arg.dtype.name}"), "R17."),
     ("kw values not hashed", CA,
-     ("            self._update_hash(kwargs[k])\n", ""), "R17.1"),
+     ("            self._update_hash(kwargs[k])\n", ""), "R17."),
     ("kw names not hashed", CA,
-     ("            self._update_hash(k)\n", ""), "R17.1"),
+     ("            self._update_hash(k)\n", ""), "R17."),
     ("function name not hashed", CA,
-     ("        self._update_hash(self.func.__name__)\n", ""), "R17.1"),
+     ("        self._update_hash(self.func.__name__)\n", ""), "R17."),
     ("filename not hashed", CA,
      ("        self._update_hash(self.func.__code__.co_filename)\n", ""),
-     "R17.1"),
+     "R17."),
     ("args not hashed", CA,
      ("        for arg in args:\n            self._update_hash(arg)\n",
       "        for arg in args[:1]:\n            self._update_hash(arg)\n"),
-     "R17.1"),
+     "R17."),
     ("dtype dropped from key (F17 returns)", CA,
      ('header = f"ndarray:{arg.dtype.str}:{arg.shape}:"',
-      'header = f"ndarray:{arg.shape}:"'), "R17.2"),
+      'header = f"ndarray:{arg.shape}:"'), "R17."),
     ("shape dropped from key (F17 returns)", CA,
      ('header = f"ndarray:{arg.dtype.str}:{arg.shape}:"',
-      'header = f"ndarray:{arg.dtype.str}:"'), "R17.2"),
+      'header = f"ndarray:{arg.dtype.str}:"'), "R17."),
     ("scalar delimiter dropped", CA,
      ('            header = f"{type(arg).__name__}:{len(data)}:"\n'
       '            self.ahash.update(header.encode(\'utf-8\'))\n', ""),
-     "R17.2"),
+     "R17."),
     ("bytes dropped from key", CA,
      ("            self.ahash.update(np.ascontiguousarray(arg).view("
-      "np.uint8))\n", ""), "R17.2"),
+      "np.uint8))\n", ""), "R17."),
     ("key list not appended", CA,
-     ("            Cache._keys.append(ref)\n", ""), "R17.3"),
+     ("            Cache._keys.append(ref)\n", ""), "R17."),
     ("evicts newest", CA,
-     ("delref = Cache._keys.pop(0)", "delref = Cache._keys.pop()"), "R17.3"),
+     ("delref = Cache._keys.pop(0)", "delref = Cache._keys.pop()"), "R17."),
     ("evicted key stays in cache", CA,
-     ("                Cache._cache.pop(delref)\n", ""), "R17.3"),
+     ("                Cache._cache.pop(delref)\n", ""), "R17."),
     ("clear_cache keeps keys", CA,
-     ("        Cache._keys = []\n", ""), "R17.3"),
+     ("        Cache._keys = []\n", ""), "R17."),
     ("wrapper returns cached array", KDE,
      ("        density[~bad_out] = kde_method(ev_x, ev_y,\n"
       "                                       xo, yo,\n"
